@@ -30,6 +30,9 @@ TRUSTED = [
     "abstract decode layer: json.loads / cattrs structure_from_dict / unstructure_to_dict / httpx text+bytes+line decoding are "
     "NOT modelled (C16/C14/C18 cover them); the oracle exercises them on the conforming bodies of this run",
     "reading the decode expression off the generated source with regular expressions (a reader bug shows as a mismatch)",
+    "translator harness/tables_C05.py (ast, fail-closed) for the builtin/construct/not-a-model name tables, primitive alias types, "
+    "binary media types and prefixes, STREAM_FORMATS, the text/json/event-stream literals; the schema registry handed to the model is "
+    "read from the real parser's IR on every run",
     "domain: parameter-less GET operations in one tag; component schemas Item, Cat, Color, Pet, Items, Names, Name, When, Count; "
     "rendered types as listed in TYPE_POOL; ASCII type strings; event streams are sent in 11 equally valid wire renderings "
     "(space/no space after the colon, LF/CRLF, multi-line data, comments and event/id/retry fields, missing final blank line or "
@@ -48,18 +51,25 @@ COMPONENTS = {
     "When": {"type": "string", "format": "date-time"},
     "Count": {"type": "integer"},
 }
-# what the handler generator's helpers read from self.schemas[name]: (named, type, has properties, has enum, items (name, type))
-REGISTRY = [
-    ("Item", (True, "object", True, False, None)),
-    ("Cat", (True, "object", True, False, None)),
-    ("Color", (True, "string", False, True, None)),
-    ("Pet", (True, None, False, False, None)),
-    ("Items", (True, "array", False, False, ("Item", "object"))),
-    ("Names", (True, "array", False, False, (None, "string"))),
-    ("Name", (True, "string", False, False, None)),
-    ("When", (True, "string", False, False, None)),
-    ("Count", (True, "integer", False, False, None)),
-]
+# what the handler generator's helpers read from self.schemas[name]: (named, type, has properties, has enum, items (name, type)).
+# Computed from the REAL parser's IR of the component schemas on every run (registry_from_ir), never hand-maintained.
+REGISTRY: list = []
+
+
+def registry_from_ir() -> list:
+    from pyopenapi_gen.core.loader.loader import load_ir_from_spec
+    ir = load_ir_from_spec(build_document([[RESP("200", e_json(k=0))]]))
+    reg = []
+    for n in COMPONENTS:
+        sc = ir.schemas[n]
+        it = getattr(sc, "items", None)
+        items = None if not it else ((it.name if getattr(it, "name", None) else None),
+                                     (str(it.type) if hasattr(it, "type") else None))
+        reg.append((n, (bool(getattr(sc, "name", None)), getattr(sc, "type", None), bool(getattr(sc, "properties", None)),
+                        bool(getattr(sc, "enum", None)), items)))
+    return reg
+
+
 ITEM, ITEM2, CAT = {"id": 1, "name": "n"}, {"id": 2, "name": "m"}, {"meow": True}
 
 
@@ -116,6 +126,7 @@ def e_pdf(): return E("application/pdf", P("bytes"), {"type": "string", "format"
 def e_png(): return E("image/png", None, None, {"bin": True})
 def e_sse(): return E("text/event-stream", T_ITEM, {"$ref": "#/components/schemas/Item"}, {"sse": True})
 def e_ndjson(): return E("application/x-ndjson", T_ITEM, {"$ref": "#/components/schemas/Item"}, {"ndjson": True})
+def e_jsonseq(): return E("application/json-seq", T_ITEM, {"$ref": "#/components/schemas/Item"}, {"jsonseq": True})
 
 
 def RESP(code: str, *entries: dict) -> dict:
@@ -131,7 +142,9 @@ def fixed_modules() -> list[list[list[dict]]]:
         [[RESP("200", e_png())]],
         [[RESP("200", e_octet())]], [[RESP("200", e_pdf())]],
         [[RESP("200", e_sse())]],
-        [[RESP("200", e_ndjson())]],                                           # F05f
+        [[RESP("200", e_ndjson())]],                                           # fixed part of F05f: read with iter_ndjson
+        [[RESP("200", e_jsonseq())]],                                          # F05f (json-seq still read with the SSE parser)
+        [[RESP("200", e_ndjson()), RESP("201", e_json(k=0)), RESP("204")]],
         [[RESP("2XX", e_json(k=0))]],                                          # F05g
         [[RESP("200", e_json(k=0)), RESP("201", e_json(k=1)), RESP("202"), RESP("404", e_json(k=0))]],
         [[RESP("200", e_json(k=0)), RESP("201", e_text())]],                   # F05c secondary text
@@ -162,7 +175,7 @@ def gen_resp(rng, code: str) -> dict:
     if r < 0.75:
         return RESP(code, rng.choice([e_octet, e_pdf, e_png])())
     if r < 0.80:
-        return RESP(code, rng.choice([e_sse, e_ndjson])())
+        return RESP(code, rng.choice([e_sse, e_ndjson, e_ndjson, e_jsonseq])())
     # several content types on one response
     pool = [lambda: e_json(rng), lambda: e_text(), lambda: e_text("text/csv"), e_png,
             lambda: e_json(rng, media="application/vnd.api+json"), e_pdf]
@@ -234,6 +247,9 @@ NDJSON_WIRES: dict[str, tuple[bytes, int]] = {
     "crlf": (NDJSON_BODY.replace(b"\n", b"\r\n"), 0),
     "compact_chunk3": (b'{"id":1,"name":"n"}\n{"id":2,"name":"m"}\n', 3),
 }
+JSONSEQ_WIRES: dict[str, tuple[bytes, int]] = {
+    "rs_lf": (b'\x1e{"id": 1, "name": "n"}\n\x1e{"id": 2, "name": "m"}\n', 0),
+}
 BIN_WIRES: dict[str, tuple[bytes, int]] = {"whole": (BIN_BODY, 0), "chunk2": (BIN_BODY, 2)}
 
 
@@ -241,7 +257,8 @@ def wires_of(e: dict | None) -> dict[str, tuple[bytes, int]] | None:
     if e is None:
         return None
     b = e["body"]
-    return SSE_WIRES if "sse" in b else NDJSON_WIRES if "ndjson" in b else BIN_WIRES if "bin" in b else None
+    return (SSE_WIRES if "sse" in b else NDJSON_WIRES if "ndjson" in b else JSONSEQ_WIRES if "jsonseq" in b
+            else BIN_WIRES if "bin" in b else None)
 
 
 def body_bytes(e: dict | None, wire: str | None = None) -> bytes:
@@ -429,6 +446,12 @@ def block_path(lines: list[str], ct: str) -> list:
         return ["PStreamBytes"]
     if lines[0].startswith("async for chunk in iter_sse_events_text(response)"):
         return ["PStreamSse"]
+    if lines[0].startswith("async for item in iter_ndjson(response)"):
+        if len(lines) > 1 and lines[1] == "yield item":
+            return ["PStreamNdjson", False]
+        if len(lines) > 1 and lines[1].startswith("yield structure_from_dict(item, "):
+            return ["PStreamNdjson", True]
+        return ["?", lines[1] if len(lines) > 1 else "empty"]
     return stmt_path(lines[0])
 
 
@@ -546,7 +569,7 @@ def oracle(inp: dict, run: list, annotation: str = "Any") -> list[str]:
         ok = (run[0] == "ret" and run[2] is None) or (run[0] == "stream" and run[2] == [])
         return [] if ok else [f"{what}: expected None / an empty iteration, got {run[1]}"]
     b = e["body"]
-    if "sse" in b or "ndjson" in b:
+    if "sse" in b or "ndjson" in b or "jsonseq" in b:
         if run[0] != "stream":
             return [f"{what}: not an async iterator"]
         return [] if run[2] == [ITEM, ITEM2] else [f"{what}: stream yielded {len(run[2])} item(s), the server sent 2"]
@@ -649,6 +672,8 @@ def c_cop(op: list[dict]) -> str:
 def c_path(p: list) -> str:
     if p[0] == "PStructure":
         return f"(PStructure {cstr(p[1])})"
+    if p[0] == "PStreamNdjson":
+        return f"(PStreamNdjson {cbool(p[1])})"
     if p[0] == "?":
         return "PGenError"
     return p[0]
@@ -814,6 +839,8 @@ def main(chk: Check, replay: dict | None = None) -> int:
         return 0
     chk.prove()
     rng = chk.rng
+    REGISTRY[:] = registry_from_ir()
+    chk.cov["registry_from_ir"] = [[n, list(i[:4]), list(i[4]) if i[4] else None] for n, i in REGISTRY]
     mods = [c["input"]["module"] for c in load_corpus("C05")] + fixed_modules()
     mods += [gen_module(rng) for _ in range(300 if chk.thorough else 90)]
     cases = run_modules(mods)
@@ -849,6 +876,15 @@ def main(chk: Check, replay: dict | None = None) -> int:
         codes = chk.coq_eval(imports, "dcase * pobs",
                              [f"({c_dcase(c['input'])}, ({c_path(c['obs']['path'])}, {cbool(c['obs']['imported'])}, {cstr(c['obs']['annotation'])}))"
                               for c in cases], "run", shard=150, prelude=prelude)
+    if chk.model_ok:
+        # hypothesis of C05_partial: every generated case is a well-formed dcase (reported, and a broken check if not)
+        wf = chk.coq_eval(imports, "dcase", [c_dcase(c["input"]) for c in cases], "run_wf", shard=150, prelude=prelude, tag="wf")
+        if wf is not None:
+            bad = [c["input"] for c, w in zip(cases, wf) if w != 1]
+            chk.cov["input_distribution"]["cases_not_wf_dcase"] = len(bad)
+            if bad:
+                chk.broken.append({"kind": "domain", "name": "wf_dcase false on a generated case (outside C05_partial's hypothesis)",
+                                   "first": {k: v for k, v in bad[0].items() if k != "module"}})
     chk.decide(cases, codes, {1: "F05b", 2: "F05c", 3: "F05f", 4: "F05i"},
                "Corr.C05.run: handle/module_has_cattrs/resolve (model) = decode expression, import and annotation in the generated source")
     # (A) function level
